@@ -898,10 +898,20 @@ class Explorer:
                     strip_generics(t.get("callee") or "") in BRANCH_CALLS:
                 src = op_local(t["args"][0])
                 if src is not None and ("d", (src,)) in env0:
-                    # Ok(0) -> Continue(0), Err(1) -> Break(1)
-                    env[("d", (t["dest"]["l"],))] = env0[("d", (src,))]
+                    # Result: Ok(0) -> Continue(0), Err(1) -> Break(1);  Option: None(0) -> Break(1), Some(1) -> Continue(0)
+                    dv = env0[("d", (src,))]
+                    if fn.local_ty(src).startswith("std::option::Option<"):
+                        dv = 1 - dv if dv in (0, 1) else dv
+                    env[("d", (t["dest"]["l"],))] = dv
                 if src is not None and ("p", (src,)) in env0:
                     env[("p", (t["dest"]["l"],))] = env0[("p", (src,))]
+            elif not t["dest"].get("p") and (t["dest"]["l"],) in self.interesting_places and "from_residual" in strip_generics(t.get("callee") or ""):
+                # `?` failing: the function's own result is the failure variant (None for Option, Err for Result)
+                ty_ = fn.local_ty(t["dest"]["l"])
+                if ty_.startswith("std::option::Option<"):
+                    env[("d", (t["dest"]["l"],))] = 0
+                elif ty_.startswith("std::result::Result<"):
+                    env[("d", (t["dest"]["l"],))] = 1
         return env
 
     def _field_target(self, pl):
